@@ -9,9 +9,9 @@ GROUP = dict(
     outside_funcs={'copy': 'vf_copy_from_q', 'copy_n': 'vf_copy_n_to_q'},
     extern_re=[r'ConcurrentBoundedQueue<.*>::(pop_n|push_n|try_pop_n|capacity|size)', r'ConcurrentSummer::(operator<<|~ConcurrentSummer)', r'ConcurrentBoundedQueue<.*>::~ConcurrentBoundedQueue', r'PageAllocator::~PageAllocator'],
     roots=[CA + '::allocate', CA + '::deallocate', CA + '::~CachedPageAllocator',
-           {'lambda_in': CA + '::allocate', 'file': 'page_allocator.cpp', 'line': 105}, {'lambda_in': CA + '::allocate', 'file': 'page_allocator.cpp', 'line': 108},
-           {'lambda_in': CA + '::deallocate', 'file': 'page_allocator.cpp', 'line': 127}, {'lambda_in': CA + '::deallocate', 'file': 'page_allocator.cpp', 'line': 132},
-           {'lambda_in': CA + '::~CachedPageAllocator', 'file': 'page_allocator.cpp', 'line': 79}],
+           {'lambda_in': CA + '::allocate', 'ordinal': 1}, {'lambda_in': CA + '::allocate', 'ordinal': 2},
+           {'lambda_in': CA + '::deallocate', 'ordinal': 1}, {'lambda_in': CA + '::deallocate', 'ordinal': 2},
+           {'lambda_in': CA + '::~CachedPageAllocator', 'ordinal': 1}],
     reviewed_compiler_conditionals=['src/babylon/concurrent/bounded_queue.h:#if !__clang__ && BABYLON_GCC_VERSION < 50000'],
     assumptions=['upstream PageAllocator (virtual) hands out a page nobody holds: modelled as the next token of a strictly increasing sequence (assumed contract of the upstream)',
                  'ConcurrentBoundedQueue pop_n/push_n/try_pop_n contract stubs: n <= capacity slots delivered in one or two consecutive ranges, reverse callback on one-slot ranges (the queue itself: C01)',
